@@ -33,6 +33,9 @@ func concBatches(seed int64, tier core.Tier, prop string) []core.Batch {
 					cfg.Cycles = 3
 					cfg.Ops /= 2
 				}
+				if cfg.Cycles > 1 && n%2 == 1 {
+					cfg.DirtyStop = true
+				}
 				b := core.Batch{Name: fmt.Sprintf("stress-r%d-w%d-i%d", rep, w, ic), TimeoutS: 300, Params: core.Params(cfg)}
 				bs = append(bs, b)
 				// a subset under the race detector (second, independent detector via group scratch memory)
